@@ -27,8 +27,7 @@ dump: for every live signal `Ss=<invoked callbacks>:<result>|<empty()>` (called 
 then `unreg=<u>:<count>,…`.
 
 The suffix ` #spec=…` is the judge: `ok` when the abstract state `Spec.run` predicts exactly the walks
-the model produced, `-` once a history left the guard of the theorems (element move from an
-unlinked source), `BAD` otherwise (a `BAD` is a violation, see props/c11.py).
+the model produced, `-` once an operation was not `Spec.valid` (cannot happen: lifetimes are checked first), `BAD` otherwise (a `BAD` is a violation, see props/c11.py).
 -/
 namespace Fcppt.C11.Drv
 open Fcppt.Proto Fcppt.C11
